@@ -186,6 +186,9 @@ def check(env, rep, tier):
                 ims = [im for im in prog.impls if im.get("trait") == tr and prog.types[im["self_ty"]]["s"].startswith("block_handler::RequestCacheKey<")]
                 rep.ob("C12.2", "derived|" + tr, len(ims) == 1 and ims[0]["derived"],
                        "%s for RequestCacheKey is not the derived (all-fields) implementation" % tr)
+        want = getattr(env, "include_rules", None)
+        if want and not any(r in want for r in ("C12.3", "C12.4", "C12.5")):
+            continue        # taken over for the frame / key rules only: the handler traces are not needed
         check_reply_correlation(prog, rep)
         # ---- C12.3 no stale correlation
         import blockutil
